@@ -16,6 +16,12 @@ def parseOp (s : String) : Option Op :=
   | ["cg", i] => do pure (.chPop (← parseNat? i))
   | ["cc", i] => do pure (.chClose (← parseNat? i))
   | ["cl", i] => do pure (.chLen (← parseNat? i))
+  -- the same operations through the channel's write-only / read-only view (`ch.writeonly`, `ch.readonly`):
+  -- a view is the same channel
+  | ["vp", i, v] => do pure (.chPush (← parseNat? i) (← parseNat? v))
+  | ["vg", i] => do pure (.chPop (← parseNat? i))
+  | ["vc", i] => do pure (.chClose (← parseNat? i))
+  | ["vl", i] => do pure (.chLen (← parseNat? i))
   | ["mn", i] => do pure (.muNew (← parseNat? i))
   | ["ml", i] => do pure (.muLock (← parseNat? i))
   | ["mu", i] => do pure (.muUnlock (← parseNat? i))
